@@ -194,7 +194,7 @@ pub fn run(args: &Args) -> i32 {
     }
     let tier = args.tier;
     let mut rep = Report::new("C06", tier, "model_checking");
-    let bound = if tier == Tier::Thorough { 3 } else { 2 };
+    let bound = if tier == Tier::Thorough { 4 } else { 3 };
     let mut tasks = vec![];
     for proto in [Protocol::Icmp, Protocol::Tcp] {
         for first_ttl in [1u8, 2, 5, 30, 253, 254] {
